@@ -328,7 +328,10 @@ def c18_cfgs(tier):
                     continue
                 out.append(cfg('c18', 'D2', trigger=trig, frames=frames, ctl=ctl))
     out += [cfg('c18', 1, trigger=1, frames=1, ctl='ts'), cfg('c18', 1, trigger=0, frames=2, ctl='ws'), cfg('c18', 'D3', trigger=1, frames=2, ctl='tts'),
-            cfg('c18', 'D2', trigger=1, frames=2, ctl='t', ctl2='tws'), cfg('c18', 'D2', trigger=1, frames=1, ctl='s', ctl2='twts')]
+            cfg('c18', 'D2', trigger=1, frames=2, ctl='t', ctl2='tws'), cfg('c18', 'D2', trigger=1, frames=1, ctl='s', ctl2='twts'),
+            # a frame call that fails (buffer too small), then re-configure and restart: the count restarts, one streamer only
+            cfg('c18', 'D2', trigger=0, frames=2, ctl='w', failfirst=1), cfg('c18', 'D2', trigger=0, frames=2, ctl='ws', failfirst=1), cfg('c18', 'D2', trigger=1, frames=2, ctl='tw', failfirst=1, ctl2='tws'),
+            cfg('c18', 'D1', trigger=0, frames=3, ctl='www', failfirst=1, ctl2='wwws'), cfg('c18', 'D2', trigger=0, frames=2, ctl='www', failfirst=1, ctl2='wws')]
     if tier == 'quick':
         return out
     t = list(out)
